@@ -570,6 +570,15 @@ func (c *Ctx) allModuleFuncs() []*ssa.Function {
 	return out
 }
 
+// inModuleOrRef: like inModule, but the upstream reference copies count too (the sibling comparison renders both sides alike).
+func (c *Ctx) inModuleOrRef(fn *ssa.Function) bool {
+	if fn == nil || fn.Pkg == nil {
+		return false
+	}
+	p := fn.Pkg.Pkg.Path()
+	return p == modPath || strings.HasPrefix(p, modPath+"/")
+}
+
 // inModule: fn belongs to a package of the analysed module (not a dependency, not an upstream reference copy).
 func (c *Ctx) inModule(fn *ssa.Function) bool {
 	if fn == nil || fn.Pkg == nil {
